@@ -191,6 +191,10 @@ def run_units(prop, units, default_timeout=600):
                     continue
                 with lock:
                     results[i] = (u, "ok", res)
+                if isinstance(res, dict) and res.get("_recycle"):
+                    # the worker grew large: start a fresh interpreter
+                    w.kill()
+                    w = Worker(prop, workdir, idx)
         finally:
             w.kill()
 
